@@ -1,6 +1,8 @@
 package checks
 
 import (
+	"encoding/json"
+	"fmt"
 	"time"
 
 	"github.com/magisterquis/curlrevshell/verifx/bworld"
@@ -8,7 +10,29 @@ import (
 )
 
 func init() {
-	registry["C06"] = checkDef{level: "model_checking", run: c06, replay: brokerReplayFunc}
+	registry["C06"] = checkDef{level: "model_checking", run: c06, replay: func(kind string, raw json.RawMessage) int {
+		if "c06http" == kind {
+			var rp struct {
+				Kinds []string `json:"http_seam"`
+				Order []int    `json:"admission_order"`
+			}
+			if err := json.Unmarshal(raw, &rp); nil != err || 0 == len(rp.Kinds) {
+				return 2
+			}
+			r := ev.New("C06", "quick", "model_checking")
+			c06HTTPRun(r, rp.Kinds, rp.Order)
+			if r.NViolations() > 0 {
+				for _, x := range r.Violations {
+					fmt.Println(x.Signature, "-", x.What)
+				}
+				fmt.Println("reproduced")
+				return 1
+			}
+			fmt.Println("not reproduced")
+			return 0
+		}
+		return brokerReplayFunc(kind, raw)
+	}}
 }
 
 // c06Profiles: several /io requests arriving together (each half parked in
@@ -68,6 +92,9 @@ func c06(r *ev.Result, tier string) {
 		budget = 12 * time.Minute
 	}
 	exploreProfiles(r, budget, c06Profiles(isQuick(tier))...)
+	/* The same question through the real /io handler over TLS, gated. */
+	c06HTTP(r, isQuick(tier))
+	r.Rule += "; plus the HTTP seam: real full-duplex /io (and /i, /o) requests over TLS against the in-process server with the broker's gates, every admission order of the halves of {io,io}, {io,i}, {o,io}, {io,io,i} (thorough also {io,io,io}, {io,o,i,io})"
 	if !isQuick(tier) {
 		brokerRacePass(r)
 	}
